@@ -174,7 +174,12 @@ func checkC06WSDirty(c *Ctx, sw *ScopeWS, tag string, dirtyRel string) {
 			for rel, txt := range files {
 				srv.DidOpen(ws.URI(rel), txt)
 			}
-			srv.DidChangeFull(ws.URI(dirtyRel), 2, newText)
+			if len(newText)%4 == 0 {
+				// a long session came first: 21-25 rounds of edit and save on this document
+				c.Count("dirty_documents_after_a_long_editing_session", 1)
+				longSession(srv, ws, dirtyRel, files[dirtyRel], 21+len(newText)%5)
+			}
+			srv.DidChangeFull(ws.URI(dirtyRel), 2000, newText)
 			err = srv.Fence()
 		}
 		if err != nil {
